@@ -666,3 +666,28 @@ Definition del_where_res (c : cls) (tbl : tref) (w : term) : res string :=
 (* the text of the SELECT of an INSERT ... SELECT *)
 Definition ins_sel_res (c : cls) (y : query) : res string :=
   rquery (with_c (defaults c (top_ctx c)) (set_wn (kc (defaults c (top_ctx c))) false)) false false (qalias y) y.
+
+(* ------------------------------------------------------------------------------------------------ *)
+(* 7. the engine's lexical pre-pass: a "--" outside quoted regions starts a comment up to the end of the line      *)
+(*    (used only to state what the known findings about expressions do to a statement)                              *)
+(* ------------------------------------------------------------------------------------------------ *)
+Inductive lexst := LOut | LSq | LDq | LComment.
+Definition nl_char : ascii := ascii_of_nat 10.
+Fixpoint strip_comments (st : lexst) (s : string) : string :=
+  match s with
+  | EmptyString => EmptyString
+  | String a r =>
+      match st with
+      | LComment => if Ascii.eqb a nl_char then String a (strip_comments LOut r) else strip_comments LComment r
+      | LSq => String a (strip_comments (if Ascii.eqb a sqc then LOut else LSq) r)
+      | LDq => String a (strip_comments (if Ascii.eqb a dqc then LOut else LDq) r)
+      | LOut =>
+          if Ascii.eqb a "-"%char then
+            match r with
+            | String b r' => if Ascii.eqb b "-"%char then strip_comments LComment r' else String a (strip_comments LOut r)
+            | EmptyString => String a EmptyString
+            end
+          else String a (strip_comments (if Ascii.eqb a sqc then LSq else if Ascii.eqb a dqc then LDq else LOut) r)
+      end
+  end.
+Definition engine_lex (s : string) : string := strip_comments LOut s.
